@@ -1120,6 +1120,32 @@ pub fn c20_extractor_combos() {
         None => check!(got.is_err(), "a missing or wrongly shaped argument is an execution error, never an invocation with different data"),
     }
 }
+/// C04: a parenthesised prefix expression under a prefix operator, `OP(OP x)`, is the outer operator applied to the
+/// inner expression's value - evaluated here in two separate steps for comparison.
+pub fn c04_nested_prefix() {
+    let (outer, inner, var): (u8, u8, u8) = (any(), any(), any());
+    crate::sym::assume(outer <= 1 && inner <= 1 && var <= 2);
+    let mut ctx = Context::default();
+    ctx.add_variable_from_value("b", Value::Bool(true));
+    ctx.add_variable_from_value("n", Value::Int(1));
+    ctx.add_variable_from_value("m", Value::Int(i64::MIN));
+    let v = ["b", "n", "m"][var as usize];
+    let op = |k: u8| if k == 0 { "!" } else { "-" };
+    let got = Program::compile(&format!("{}({}{})", op(outer), op(inner), v)).expect("compiles").execute(&ctx);
+    let step1 = Program::compile(&format!("{}{}", op(inner), v)).expect("compiles").execute(&ctx);
+    let want = match step1 {
+        Err(_) => None,
+        Ok(t) => {
+            let mut c2 = ctx.new_inner_scope();
+            c2.add_variable_from_value("t", t);
+            Program::compile(&format!("{}t", op(outer))).expect("compiles").execute(&c2).ok()
+        }
+    };
+    match want {
+        None => check!(got.is_err(), "an error of the inner or the outer prefix operation is the result"),
+        Some(w) => check!(got == Ok(w), "OP(OP x) applies the outer operator to the value of the inner expression"),
+    }
+}
 /// C04 visitor half: a run of k prefix operators applies the operator k times (an even run cancels).
 pub fn c04_prefix() {
     let (op, k, operand): (u8, u8, u8) = (any(), any(), any());
@@ -1671,6 +1697,7 @@ crate::replay_only! {
     #[kani::unwind(2)] c08_unary_minus_float: "off", "Program::compile + Value::resolve NEGATE arm on a double", "bits: all u64";
     #[kani::unwind(2)] c07_macro_over_literal: "off", "the five macros over a list literal of logging calls with a logging body, through Program::compile + execute", "5 macros x 1-4 elements";
     #[kani::unwind(2)] c20_extractor_combos: "off", "host functions combining This / positional / Identifier / Expression / Arguments / FunctionContext extractors, both call styles, through Program::compile + execute", "ten call shapes";
+    #[kani::unwind(2)] c04_nested_prefix: "off", "OP(OP x) for the two prefix operators over a bool, an int and i64::MIN through Program::compile + execute, against two separate evaluations", "2 x 2 operators x 3 operands";
     #[kani::unwind(2)] c12_literal: "off", "a string / bytes literal token through Program::compile + execute against an independent decoder of the CEL literal syntax", "token text of up to 24 characters taken from the vector";
     #[kani::unwind(2)] c13_string_roundtrip: "off", "int(string(x)) / uint(string(x)) / double(string(x)) through Program::compile + execute", "payload bits from the vector";
     #[kani::unwind(2)] c13_literal: "off", "int / uint literals of every sign, radix and magnitude through Program::compile + execute", "text built from the vector";
